@@ -8,6 +8,7 @@ import (
 	"encoding/json"
 	"fmt"
 	"os"
+	"sort"
 )
 
 var commands = map[string]func(args []string) error{}
@@ -109,6 +110,9 @@ func obj(m map[string]any, k string) map[string]any {
 }
 
 func strs(m map[string]any, k string) []string {
+	if ss, ok := m[k].([]string); ok {
+		return ss
+	}
 	arr, _ := m[k].([]any)
 	out := []string{}
 	for _, a := range arr {
@@ -125,3 +129,5 @@ func canon(v any) string {
 	}
 	return string(b)
 }
+
+func sortStrings(s []string) { sort.Strings(s) }
